@@ -70,6 +70,38 @@ func (P) Exec(line string) string {
 			toks = strings.Split(f[8], ",")
 		}
 		return runHS(c, toks)
+	case "hs2":
+		// C18 hs2 <v2|v2dg> <in|out> <ours> <allowSelf> <main|reg> <local|remote> <rejVer> <toks> <toks2>
+		// toks2 drives the v1 reconnect that follows an outbound downgrade.
+		if len(f) != 11 || (f[2] != "v2" && f[2] != "v2dg") {
+			return "bad-op"
+		}
+		ours, err := strconv.ParseUint(f[4], 10, 32)
+		if err != nil || ours == 0 {
+			return "bad-op"
+		}
+		c := hsCfg{transport: f[2], inbound: f[3] == "in", ours: uint32(ours), allowSelf: f[5] == "1",
+			regtest: f[6] == "reg", local: f[7] == "local", rejectVer: f[8] == "1"}
+		split := func(x string) []string {
+			if x == "-" {
+				return nil
+			}
+			return strings.Split(x, ",")
+		}
+		out := runHS(c, split(f[9]))
+		if strings.Contains(out, " dg=1") && !c.inbound {
+			// What the server does: remember the address, reconnect with v1.
+			d := peer.NewP2PDowngrader(0)
+			addr := "10.1.2.3:18555"
+			d.MarkForDowngrade(addr)
+			first, second := d.ShouldDowngrade(addr), d.ShouldDowngrade(addr)
+			if !first || second {
+				return out + " || downgrader-broken"
+			}
+			c.transport = ""
+			out += " || " + runHS(c, split(f[10]))
+		}
+		return out
 	case "racerun":
 		// C18 racerun build=.. races=.. mism=..: result of the -race build of this
 		// harness, obtained in Generate (thorough tier).
@@ -337,6 +369,58 @@ func (P) Generate(g *core.Gen) {
 			subs[j] = strings.ReplaceAll(strings.TrimPrefix(line, "C18 hs "), " ", ";")
 		}
 		g.Case("hs-parallel", true, "C18 par "+strings.Join(subs, "|"))
+	}
+	// 2c. BIP324 transport: both sides v2 (the remote is btcd's own v2transport
+	// endpoint in the opposite role), v2 peer with a v1 remote (inbound:
+	// downgrade on a v1 version message; outbound: hang-up, ShouldDowngradeToV1,
+	// P2PDowngrader, v1 reconnect).
+	v2ify := func(toks string) string {
+		if toks == "-" {
+			return toks
+		}
+		ts := strings.Split(toks, ",")
+		for i, t := range ts {
+			switch t {
+			case "magic", "cksum", "badcmd", "big", "trunc":
+				ts[i] = "unk"
+			}
+		}
+		return strings.Join(ts, ",")
+	}
+	for i, n := 0, g.N(300, 6000); i < n; i++ {
+		_, _, line := randHS(r)
+		f := strings.Fields(line)
+		_, _, line2 := randHS(r)
+		toks2 := strings.Fields(line2)[8]
+		if toks2 != "-" {
+			// the reconnect runs under THIS line's configuration: redo the flush barriers
+			var raw []string
+			for _, t := range strings.Split(toks2, ",") {
+				if t != "F" {
+					raw = append(raw, t)
+				}
+			}
+			o, _ := strconv.ParseInt(f[3], 10, 64)
+			toks2 = strings.Join(finishScript(raw, o), ",")
+		}
+		tr, class := "v2", "hs2-v2"
+		switch r.Intn(5) {
+		case 0, 1:
+			f[8] = v2ify(f[8])
+		case 2:
+			tr, class = "v2dg", "hs2-downgrade-in"
+			f[2] = "in"
+			if r.Chance(1, 12) {
+				f[8] = "-"
+			}
+		default:
+			tr, class = "v2dg", "hs2-downgrade-out"
+			f[2] = "out"
+			if r.Chance(2, 3) {
+				f[8] = "-"
+			}
+		}
+		g.Case(class, true, fmt.Sprintf("C18 hs2 %s %s %s", tr, strings.Join(f[2:9], " "), toks2))
 	}
 	// 3. messages queued while the handshake is still in progress.
 	for _, dir := range []string{"in", "out"} {
